@@ -87,6 +87,7 @@ def plan(tier, seed):
             shards.append(("ins", sec, gi, mult))
     shards.append(("pairs", mult))
     shards.append(("disjoint",))
+    shards.append(("long",))
     shards.append(("conservation",))
     return dict(shards=shards, bounds=dict(base_lines=5, insertion_points=6, multiplicity=mult, garbage={k: v for k, v in GARBAGE.items()}), budget_s=600)
 
@@ -167,7 +168,30 @@ def _conservation(ctx):
             e1.check_model(ctx, "claimed-once", text, refmodel.model(text), msg="single line %r in the %s section" % (ln, sec), drop=CONS_DROP)
 
 
+def _long(ctx):
+    """Long sections (thresholds on the number of lines): garbage at the beginning, in the middle, at the end."""
+    sync = ["0 = TS 4", "0 = B 120000"] + ["%d = B %d" % (10 * k, 60000 + k) for k in range(1, 300)] + ["%d = TS 3" % (7 * k) for k in range(1, 300)]
+    events = [('%d = E "lyric w%d"', '%d = E "section s %d"', '%d = E "free %d"')[i % 3] % (2 * i, i) for i in range(1200)]
+    track = []
+    for i in range(1500):
+        track += ["%d = N %d %d" % (3 * i, i % 5, i % 4)] + (["%d = N %d 0" % (3 * i, (i + 2) % 5)] if i % 3 == 0 else []) + (["%d = S 2 4" % (3 * i)] if i % 40 == 0 else []) + (["%d = E e%d" % (3 * i, i)] if i % 55 == 0 else [])
+    base = dict(sync=sync, events=events, track=track)
+    base_text = mk(res=4, sync=sync, events=events, tracks={"ExpertSingle": track})
+    o0, w0 = run(base_text)
+    for sec in ("sync", "events", "track"):
+        lines = base[sec]
+        for g in GARBAGE[sec][:4] + BRACES[:3]:
+            for pos in (0, 1, len(lines) // 2, len(lines) - 1, len(lines)):
+                new = lines[:pos] + [g, g] + lines[pos:]
+                kw = dict(base)
+                kw[sec] = new
+                text = mk(res=4, sync=kw["sync"], events=kw["events"], tracks={"ExpertSingle": kw["track"]})
+                check(ctx, None, text, 2, base_text, o0, w0, "long %s section (%d lines), %r twice at position %d" % (sec, len(lines), g, pos))
+
+
 def run_shard(shard, ctx):
+    if shard[0] == "long":
+        return _long(ctx)
     if shard[0] == "disjoint":
         return _disjoint(ctx)
     if shard[0] == "conservation":
